@@ -217,3 +217,84 @@ func c01RepeatCounts(c *core.Check) {
 		r.Anchor("calls of strings.Repeat")
 	}
 }
+
+// c01RootStaysBlock (R32): the root box is block-level: BuildFormattingStructure asserts it (the display of the root
+// element computes to a block-level value).  elementToBox overrides the display of a footnote element with its
+// footnote-display; an override by an inline display is unreachable for the root element, which elementToBox knows by
+// its nil state parameter.  (`<html style="float: footnote; footnote-display: inline">` panicked on the assertion.)
+func c01RootStaysBlock(c *core.Check) {
+	p := c.Prog
+	r := c.Rule("R32", "the root box stays block-level: in html/boxes.elementToBox every SetDisplay of an inline display is reached only when the state parameter was compared with nil and found non-nil (the root element is the call without state)", 1)
+	fn := p.Fn("html/boxes", "elementToBox")
+	if fn == nil {
+		r.Anchor("html/boxes.elementToBox")
+		return
+	}
+	var state *ssa.Parameter
+	for _, prm := range fn.Params {
+		if prm.Name() == "state" {
+			state = prm
+		}
+	}
+	if state == nil {
+		r.Anchor("html/boxes.elementToBox: parameter state")
+		return
+	}
+	var atoms []ssa.Value
+	eq := map[ssa.Value]bool{}
+	for _, a := range core.CondAtoms(fn) {
+		b, ok := a.(*ssa.BinOp)
+		if !ok || (b.Op != token.EQL && b.Op != token.NEQ) || b.X != ssa.Value(state) {
+			continue
+		}
+		if k, ok := b.Y.(*ssa.Const); ok && k.IsNil() {
+			atoms = append(atoms, a)
+			eq[a] = b.Op == token.EQL
+		}
+	}
+	n := 0
+	core.Instrs(fn, func(in ssa.Instruction) {
+		call, ok := in.(*ssa.Call)
+		if !ok || !call.Call.IsInvoke() || call.Call.Method.Name() != "SetDisplay" || len(call.Call.Args) != 1 {
+			return
+		}
+		// first word of the display literal
+		first := ""
+		if ld, ok := call.Call.Args[0].(*ssa.UnOp); ok {
+			if al, ok := ld.X.(*ssa.Alloc); ok && al.Referrers() != nil {
+				for _, ref := range *al.Referrers() {
+					if ia, ok := ref.(*ssa.IndexAddr); ok {
+						if i, ok := core.ConstInt(ia.Index); ok && i == 0 && ia.Referrers() != nil {
+							for _, r2 := range *ia.Referrers() {
+								if st, ok := r2.(*ssa.Store); ok {
+									first, _ = core.ConstStr(st.Val)
+								}
+							}
+						}
+					}
+				}
+			}
+		}
+		if first != "inline" && first != "run-in" && first != "" {
+			return
+		}
+		n++
+		key := fmt.Sprintf("html/boxes.elementToBox | SetDisplay(%s …) #%d", first, n)
+		if first == "" {
+			r.Unknown(key, p.Pos(call.Pos()), "the display set is not a literal")
+			return
+		}
+		ok2, _ := core.GuardedBy(fn, call.Block(), atoms, func(m map[ssa.Value]bool) bool {
+			for a, v := range m {
+				if v != eq[a] { // the test says "state is not nil"
+					return true
+				}
+			}
+			return false
+		})
+		r.Cond(ok2 && len(atoms) > 0, key, p.Pos(call.Pos()), "reached only for an element with a state: not the root", "the display of the root element can be set to an inline one: BuildFormattingStructure asserts that the root box is block-level and panics")
+	})
+	if n == 0 {
+		r.Skip("html/boxes.elementToBox | SetDisplay(inline …)", p.Pos(fn.Pos()), "elementToBox sets no inline display")
+	}
+}
